@@ -28,7 +28,7 @@ From KV Require Import Base.Prelude.
 
     [None] = "return at_start" (roll back the partial repetition),
     [Some this'] = the loop was left through [break] with the rest of the slice. *)
-Fixpoint trim_inner (this matched : list Z) : option (list Z) :=
+Fixpoint trim_inner (this matched : list Z) {struct matched} : option (list Z) :=
   match matched with
   | [] => Some this
   | bm :: remm =>
